@@ -77,6 +77,13 @@ def gen(rng, tier):
         C.maybe_from_json(rng, C.maybe_abs_edit(rng, C.maybe_history(rng, spec, 0.25, reload_prob=0.2), 0.6), 0.1)
     if twin and not random_twin and rng.random() < 0.2:
         spec["backward_twin"] = {"due": rng.random() < 0.3, "reverse": True}  # the twin clause on the result of a backward simulation
+    elif twin and not random_twin and rng.random() < 0.15:
+        # the absence run is made in two legs: cut off at step k under a calendar that agrees with the list up to k and names
+        # other steps after k, then continued (state and logs kept) under the list itself
+        k = rng.randint(1, 10)
+        spec["cont_twin"] = {"k": k, "extra": sorted(set(k + rng.randint(0, 8) for _ in range(rng.randint(1, 3))))}
+        if spec["cfg"].get("rule") == 4:
+            spec["cfg"]["rule"] = 5
     return spec
 
 
@@ -90,6 +97,10 @@ def extra_candidates(spec):
     if spec.get("backward_twin") is not None:
         c = dict(spec)
         c.pop("backward_twin")
+        yield c
+    if spec.get("cont_twin") is not None:
+        c = dict(spec)
+        c.pop("cont_twin")
         yield c
     if spec.get("random_twin"):
         # fewer uncertain skills
@@ -296,7 +307,21 @@ def run(spec):
         if bwt is not None:
             res.count("backward_twin_compared")
         scen.setup_run(spec.get("seed", 0))
-        ta = scen.run_forward(spec["model"], spec.get("ranks"), cfgA, want_snap=False, **({"backward": bwt} if bwt else {}))
+        ct = spec.get("cont_twin") if bwt is None else None
+        if ct is not None and spec["cfg"].get("rule") != 4 and ct["k"] < cfgA["max_time"]:
+            from .. import build as B
+            res.count("continued_twin_compared")
+            ta = scen.Trace()
+            ta.built = B.build(spec["model"], spec.get("ranks"))
+            ta.project = ta.built.project
+            L1 = sorted(set([a for a in L if a < ct["k"]] + list(ct["extra"])))
+            rec1_, out1_ = scen.simulate(ta.project, dict(cfgA, max_time=ct["k"], absence=L1), want_snap=False)
+            ta.rec, ta.out = scen.simulate(ta.project, dict(cfgA, init_state=False, init_log=False), want_snap=False)
+            if not out1_.ok:
+                ta.out = out1_
+        else:
+            ct = None
+            ta = scen.run_forward(spec["model"], spec.get("ranks"), cfgA, want_snap=False, **({"backward": bwt} if bwt else {}))
         cfgB = dict(spec["cfg"])
         cfgB["absence"] = []
         scen.setup_run(spec.get("seed", 0))
@@ -328,6 +353,8 @@ def run(spec):
                         cause += ".backward"
                     if spec.get("random_twin") and not cause.startswith("FIFO_counts"):
                         cause += ".uncertain_progress_fixed_seed"
+                    if ct is not None:
+                        cause += ".absence_run_in_two_legs"
                     res.add("twin", "C10.twin_differs." + cause,
                             "simulate(absence=%s)+remove_absence_time_list() differs from simulate() in %s; first at %s: %r vs %r"
                             % (L, sorted(attrs), diff[0], diff[1], diff[2]), None)
